@@ -146,7 +146,7 @@ def half_block(chk, f):
 def run(chk):
     f = F.load()
     g, ip = P.shared(f)
-    chk.rules = ["R-VIS", "R-COVER", "R-OFFSET", "R-TOPDOWN", "R-OPAQUE", "R-TOPMOST", "R-STATE-RESET", "R-HALFBLOCK"]
+    chk.rules = ["R-VIS", "R-COVER", "R-OFFSET", "R-TOPDOWN", "R-OPAQUE", "R-TOPMOST", "R-STATE-RESET", "R-HALFBLOCK", "R-INVISIBLE"]
     chk.assumptions = ["Layer::get_width/get_height return size.width/size.height (checked through their return summaries)",
                        "transparent-colour merging values are not decided"]
     b = f.bodies.get("<buffers::Buffer as TextPane>::get_char")
@@ -397,6 +397,7 @@ def run(chk):
         chk.floor("R-TOPMOST", "stores to transparent_char inside the walk", nstores, 2)
     state_reset(chk, f)
     half_block(chk, f)
+    invisible(chk, f, b, loop, head)
     return chk.finish("Buffer::get_char analysed (122 blocks): walk order, offset translation (Sub impl of the same layer), visibility and four-sided "
                       "extent facts at each Layer::get_char call (abstract interpretation), skip edges of the extent test, opaque-layer cut-off and "
                       "topmost-transparent-cell discipline.")
@@ -456,3 +457,161 @@ def state_reset(chk, f):
                         what="%s::%s can return without storing `%s`%s: what get_char composites then depends on an earlier call" % (
                             owner.split("::")[-1], meth, field, (" on a path that is not the `%s` early return" % exempt) if exempt else ""))
     chk.floor("R-STATE-RESET", "setters examined", n, 2)
+
+
+# ===================================================================================================== R-INVISIBLE
+def _locals_of(o, out):
+    if isinstance(o, dict):
+        if "l" in o and isinstance(o["l"], int):
+            out.add(o["l"])
+        for v in o.values():
+            _locals_of(v, out)
+    elif isinstance(o, (list, tuple)):
+        for v in o:
+            _locals_of(v, out)
+
+
+def _local_cdeps(b, loop, head, block, _cache={}):
+    """iteration-local control dependence inside the (single, inner-loop-free) walk: the switch blocks of the loop body on which
+    the execution of `block` depends *within one iteration* (transitively).  Post-dominance is computed on the loop body with the
+    back edges redirected to one virtual end-of-iteration node and the edges that leave the walk removed - the transitive relation of
+    facts.control_deps would also contain the tests of the previous iteration, on which this one depends through early returns."""
+    ck = (b.id, head)
+    if ck not in _cache:
+        END = -1
+        nodes = sorted(loop)
+        succ = {}
+        for x in nodes:
+            ss = set()
+            for y in b.succ[x]:
+                if y == head:
+                    ss.add(END)
+                elif y in loop:
+                    ss.add(y)       # edges that leave the walk (an early return, the end of the stack) are not part of "the iteration goes on"
+            succ[x] = ss
+        pd = {x: set(nodes) | {END} for x in nodes}
+        pd[END] = {END}
+        ch = True
+        while ch:
+            ch = False
+            for x in nodes:
+                new = ({x} | set.intersection(*[pd[y] for y in succ[x]])) if succ[x] else pd[x]
+                if new != pd[x]:
+                    pd[x] = new
+                    ch = True
+        _cache[ck] = (succ, pd)
+    succ, pd = _cache[ck]
+    deps, work = set(), [block]
+    while work:
+        s0 = work.pop()
+        for tb in loop:
+            if tb in deps or b.blocks[tb]["term"]["k"] != "switch" or len(succ[tb]) < 2:
+                continue
+            if s0 != tb and s0 not in pd[tb] - {tb} and any(s0 in pd[y] for y in succ[tb] if y != -1):
+                deps.add(tb)
+                work.append(tb)
+    return deps
+
+
+def invisible(chk, f, b, loop, head):
+    """R-INVISIBLE: inside the layer walk, a store into state that survives the iteration (a local live at the loop head:
+    the pending character, attribute, transparent cell ...) of a value taken from the cell fetched with Layer::get_char happens
+    only under a test of that cell (the store is control-dependent on a branch whose condition is computed from the cell -
+    is_visible(), is_transparent(), a comparison of its colours - or the stored value itself is built from such a predicate,
+    `pred.then_some(..)`).  Otherwise every cell of the layer, the invisible ones included, leaves something behind for the
+    layers below it: "invisible cells of alpha layers never influence it" cannot hold."""
+    key = "Buffer::get_char"
+    carried = set(b.live_in[head])
+    gets = [(bi, t) for bi, t in b.calls() if bi in loop and (t["callee"].get("resolved") or "") == GET_CHAR]
+    if not chk.anchor(len(gets) >= 1, "R-INVISIBLE", "Layer::get_char call inside the walk (%d)" % len(gets)):
+        return
+    cell = {t["dest"]["l"] for _, t in gets if not t["dest"].get("p")}
+    tainted = set(cell)          # locals holding (parts of) the fetched cell, this iteration only
+    preds = set()                # booleans computed from the cell
+    changed = True
+    while changed:
+        changed = False
+        for bi in loop:
+            blk = b.blocks[bi]
+            for s in blk["stmts"]:
+                if s["k"] != "assign":
+                    continue
+                d = s["p"]["l"]
+                if d in carried:
+                    continue            # what an earlier iteration left behind is not "this cell"
+                used = set()
+                _locals_of(s["rv"], used)
+                if used & tainted and d not in tainted:
+                    tainted.add(d); changed = True
+                if used & preds and d not in preds:
+                    preds.add(d); changed = True
+            t = blk["term"]
+            if t["k"] == "call" and not t["dest"].get("p"):
+                d = t["dest"]["l"]
+                if d in carried:
+                    continue
+                used = set()
+                _locals_of(t["args"], used)
+                if used & tainted:
+                    if b.tys(d) == "bool":
+                        if d not in preds:
+                            preds.add(d); changed = True
+                    elif d not in tainted:
+                        tainted.add(d); changed = True
+                if used & preds and d not in preds:
+                    preds.add(d); changed = True      # `pred.then_some(cell.x)`: cell data *and* guarded by a test of the cell
+    # comparisons of the cell's fields are predicates too (handled as tainted booleans)
+    tests = set()
+    for bi in loop:
+        t = b.blocks[bi]["term"]
+        if t["k"] == "switch":
+            used = set()
+            _locals_of(t["discr"], used)
+            if used & (preds | {x for x in tainted if b.tys(x) == "bool"}):
+                tests.add(bi)
+    chk.anchor(len(tests) >= 2, "R-INVISIBLE", "branches on a property of the fetched cell inside the walk (%d)" % len(tests))
+    n = 0
+    for bi in sorted(loop):
+        blk = b.blocks[bi]
+        sites = []
+        for s in blk["stmts"]:
+            if s["k"] == "assign" and s["p"]["l"] in carried:
+                used = set()
+                _locals_of(s["rv"], used)
+                if used & tainted:
+                    sites.append((s["p"]["l"], s.get("line"), bool(used & preds)))
+        t = blk["term"]
+        if t["k"] == "call" and t["dest"]["l"] in carried:
+            used = set()
+            _locals_of(t["args"], used)
+            if used & tainted:
+                sites.append((t["dest"]["l"], t.get("line"), bool(used & preds)))
+        if not sites:
+            continue
+        dep = bool(_local_cdeps(b, loop, head, bi) & tests)
+        for d, line, guarded in sites:
+            n += 1
+            ok = guarded or dep
+            chk.obligation(ok)
+            if not ok:
+                chk.finding(key + "|invisible|%s" % (b.lname(d) if hasattr(b, "lname") else d), rule="R-INVISIBLE", where="%s:%s" % (b.file, line), fn=key,
+                            what="inside the layer walk a value taken from the fetched cell is kept for the layers below without any test of that cell "
+                                 "(is_visible / is_transparent / its colours): invisible cells of the layer influence what is shown beneath it")
+    # cell data handed, together with a `&mut` to walk-carried state, to a helper: where the helper tests the cell is not visible
+    # from here - counted (the rule is not vacuous), never alarmed on
+    handed = 0
+    mutrefs = {}
+    for bi in loop:
+        for s in b.blocks[bi]["stmts"]:
+            if s["k"] == "assign" and s["rv"]["k"] == "ref" and s["rv"].get("mut") and s["rv"]["p"]["l"] in carried and not s["p"].get("p"):
+                mutrefs[s["p"]["l"]] = s["rv"]["p"]["l"]
+    for bi in loop:
+        t = b.blocks[bi]["term"]
+        if t["k"] != "call":
+            continue
+        used = set()
+        _locals_of(t["args"], used)
+        if used & set(mutrefs) and used & tainted:
+            handed += 1
+    chk.cov["cell_data_handed_to_helpers"] = handed
+    chk.floor("R-INVISIBLE", "stores of cell data into walk-carried state (direct or through a helper)", n + handed, 2)
